@@ -36,6 +36,9 @@ def items(tier, seed):
     out = []
     for i in range(len(SECRET_LINES)):
         out.append(Item("C13", "twice", dict(kind="secret", line=i), budget_s=600, obligation="H1-two-runs-secrets"))
+    for salt in ("_x", "", "\u00e9t\u00e9"):
+        out.append(Item("C13", "twice", dict(kind="secret", line=3, salt=salt), budget_s=600, obligation="H1-two-runs-secrets"))
+        out.append(Item("C13", "twice", dict(kind="words", words=0, line=0, salt=salt), budget_s=600, obligation="H1-two-runs-words"))
     for wi in range(len(WORD_SETS)):
         for li in range(len(WORD_LINES)):
             out.append(Item("C13", "twice", dict(kind="words", words=wi, line=li), budget_s=600, obligation="H1-two-runs-words"))
@@ -104,6 +107,8 @@ def twice(item, res):
     """H1: the same construction + run executed twice with independent environment draws must give equal output."""
     F = fam()
     lines, kw, vs = _setup(item.params)
+    if "salt" in item.params:
+        kw["salt"] = item.params["salt"]
     ex = Explorer(deadline=time.time() + item.budget_s)
 
     def h(ex_):
@@ -127,6 +132,7 @@ def twice(item, res):
         if m is None:
             res["finals_unsat"] += 1
             return ("ok", o1, o2)
+        ex_.stop_requested = True
         return ("differ", o1, o2, m)
     paths = ex.explore(h)
     harness.add_stats(res, ex)
